@@ -191,7 +191,13 @@ class PASHARungSystem(PromotionRungSystem):
         )
         for epoch in range(top_epoch, bottom_epoch, -1):
             if len(self.epoch_to_trials[epoch]) > 1:
-                for pair in itertools.combinations(self.epoch_to_trials[epoch], 2):
+                # Note: The iteration order of a set of strings depends on hash
+                # randomization and on how the set was built up (it changes when
+                # the scheduler is pickled and restored), and ``seen_pairs``
+                # distinguishes (c1, c2) from (c2, c1)
+                for pair in itertools.combinations(
+                    sorted(self.epoch_to_trials[epoch]), 2
+                ):
                     c1, c2 = pair[0], pair[1]
                     if (c1, c2) not in seen_pairs:
                         seen_pairs.add((c1, c2))
